@@ -53,10 +53,56 @@ C02Verdict(rec) ==
                               LAMBDA k : Positioned(d.fields[k]) /\ ~FieldKept(d.fields[k], rec.p, rec.e))
          IN [j \in 1..Len(idx) |-> [f |-> idx[j], c |-> "reencode.bits"]]
 
+\* ---- C09 ----------------------------------------------------------------
+\* rec: [id, ret ("enc"|"err"), e (payload), base (payload of the unmodified request, <<>> if none),
+\*       changed (index of the field that differs from the base request, 0 if none),
+\*       req (per definition field: [k, neg, mag, cls])]
+\*   k = "na" absent | "num" number given by floor + class | "code" exact integer code |
+\*       "bits" exact bit pattern (mag, untrimmed comparison after Trim) | "missing" field removed |
+\*       "nonfinite" NaN/inf | "free" not constrained
+MustRefuse(f, r) ==
+  CASE r.k \in {"missing", "nonfinite"} -> TRUE
+    [] r.k = "num"  -> /\ ~SomeRepresentable(f, SM(r.neg, r.mag), r.cls)
+                       /\ (Len(Trim(r.mag)) > 50 => Len(Trim(r.mag)) > f.len)   \* wide fields: only clearly out of range
+    [] r.k = "code" -> r.neg \/ Len(Trim(r.mag)) > f.len
+    [] OTHER -> FALSE
+
+EncFieldVerdict(f, e, r) ==
+  LET code == Slice(e, f.off, f.len) IN
+    CASE r.k \in {"na", "num"} -> EncNumVerdict(f, code, r)
+      [] r.k = "code" -> IF Trim(code) = Trim(r.mag) THEN "ok" ELSE "encode.wrong-code"
+      [] r.k = "bits" -> IF Trim(code) = Trim(r.mag) THEN "ok" ELSE "encode.wrong-bits"
+      [] OTHER -> "ok"
+
+\* all bits outside field f equal in the two payloads
+\* (definitions without a fixed Length are written without trailing zero bytes: missing bytes read as 0)
+Local(f, e, b) ==
+  LET n == IF Len(e) > Len(b) THEN Len(e) ELSE Len(b) IN
+    \A i \in 0..(8 * n - 1) : (i < f.off \/ i >= f.off + f.len) => BitAt(e, i) = BitAt(b, i)
+
+C09Verdict(rec) ==
+  LET d == DefById(rec.id)
+      n == Len(d.fields)
+      refuse == {k \in 1..n : MustRefuse(d.fields[k], rec.req[k])}
+  IN IF rec.ret = "err" THEN Ok
+     ELSE IF refuse # {} THEN
+       LET k == SetMin(refuse) IN
+         Fail(k, IF rec.req[k].k = "missing" THEN "encode.missing-field-accepted"
+                 ELSE IF rec.req[k].k = "nonfinite" THEN "encode.nonfinite-accepted"
+                 ELSE IF rec.req[k].k = "code" THEN "encode.too-wide-accepted"
+                 ELSE "encode.unrepresentable-accepted")
+     ELSE IF d.len > 0 /\ Len(rec.e) # d.len THEN Fail(0, "encode.length")
+     ELSE LET idx == SelectSeq([k \in 1..n |-> k],
+                               LAMBDA k : EncFieldVerdict(d.fields[k], rec.e, rec.req[k]) # "ok")
+              loc == IF rec.changed > 0 /\ Len(rec.base) > 0 /\ ~Local(d.fields[rec.changed], rec.e, rec.base)
+                     THEN Fail(rec.changed, "encode.locality") ELSE Ok
+          IN [j \in 1..Len(idx) |-> [f |-> idx[j], c |-> EncFieldVerdict(d.fields[idx[j]], rec.e, rec.req[idx[j]])]] \o loc
+
 Verdict(rec) ==
   CASE IOEnv.MODE = "C01" -> C01Verdict(rec)
     [] IOEnv.MODE = "C08" -> C08Verdict(rec)
     [] IOEnv.MODE = "C02" -> C02Verdict(rec)
+    [] IOEnv.MODE = "C09" -> C09Verdict(rec)
 
 Verdicts ==
   LET idx == SelectSeq([k \in 1..Len(Recs) |-> k], LAMBDA k : Verdict(Recs[k]) # Ok)
